@@ -1,6 +1,6 @@
 """Data for MANIFEST.json (edit here, then run tools_manifest.py)."""
 
-PYVC_PROPS = ["C04", "C08", "C09", "C10", "C11", "C14", "C16"]
+PYVC_PROPS = ["C04", "C06", "C08", "C09", "C10", "C11", "C14", "C16"]
 BOUNDED_PROPS: list[str] = ["C04", "C06", "C09", "C14", "C10", "C11", "C12", "C15"]
 
 
@@ -78,8 +78,11 @@ CHECKS += [
          "inferred AND/OR/XOR tree admits every observed successor set, for every gate tree over <= 5 (thorough 6) distinct events, depth <= 3, "
          "alternating operators, with its full outcome family; and admits exactly those sets on the stated sub-class (OR over plain events only, no AND "
          "with two OR children). Soundness additionally on arbitrary observed families over 3 events (all) and 4 events (4000 sampled; thorough all 32767).",
-         "Bounded exploration: pm4py's inductive miner is external and has no contract, so no function-level contract can carry the property; the "
-         "deductive attempt on utils.get_weighted_cover (DESIGN 4/C06) is not part of this check.", "DESIGN.md 4/C06"),
+         "Bounded exploration: pm4py's inductive miner is external and has no contract, so no function-level contract can carry the property. "
+         "Additionally PROVED (contracts/c06.py, 24 clauses, all inputs): utils.get_weighted_cover - a returned cover consists of observed sets, covers the "
+         "universe, is pairwise disjoint, and every observed set is a union of whole members (what makes 'AND under OR' admit every observed set); "
+         "one-directional: when a cover must be found is not specified (the selection key, a float ratio, is abstracted to 'some element').",
+         "DESIGN.md 4/C06"),
     bchk("C09", "BOUNDED (never counted as proved). The contract of find_unique_graphs - for each workflow name the selected traces contain exactly one "
          "member of every call-tree shape class, never two of one class, same answer for every batch size and ingestion order - is evaluated on the real "
          "SQLDataHolder over all pairs of small labelled trees plus random deeper ones (DESIGN 4/C09). The recursive hash function's deductive contract "
